@@ -86,11 +86,21 @@ type khCase struct {
 	tc     int64
 	pv     string
 	script []kaStep
+	mode   string // shttp: "" stateful without EventStore, "store" with one, "stateless" (a temporary session per POST)
+	race   int64  // shttp: > 0 — the client's DELETE arrives this long after the last ping before `tc` was issued (while it is in flight)
 }
 
 func (c *khCase) derive() {
 	c.script = c.script[:0]
 	for _, w := range c.wire {
+		if w.kind == 'G' { // the client has no standalone stream at this tick: KeepAlive.absentStream
+			if c.mode == "store" {
+				c.script = append(c.script, kaStep{'n', 0})
+			} else {
+				c.script = append(c.script, kaStep{'e', 0})
+			}
+			continue
+		}
 		c.script = append(c.script, w.model())
 	}
 }
@@ -119,7 +129,14 @@ func (c *khCase) op() string {
 	if len(tm) > 0 {
 		tmnf = strings.Join(tm, ",")
 	}
-	return fmt.Sprintf("kas side=%s I=%d T=%d script=%s cancel=%d wire=%s pv=%s tmnf=%s", c.side, c.I, c.T, sc, c.tc, wi, c.pv, tmnf)
+	op := fmt.Sprintf("kas side=%s I=%d T=%d script=%s cancel=%d wire=%s pv=%s tmnf=%s", c.side, c.I, c.T, sc, c.tc, wi, c.pv, tmnf)
+	if c.mode != "" {
+		op += " mode=" + c.mode
+	}
+	if c.race > 0 {
+		op += fmt.Sprintf(" race=%d", c.race)
+	}
+	return op
 }
 
 func khParse(op string) (*khCase, bool) {
@@ -136,7 +153,17 @@ func khParse(op string) (*khCase, bool) {
 	if kv["side"] != "http" && kv["side"] != "ctxw" && kv["side"] != "srvw" && kv["side"] != "shttp" && kv["side"] != "ssec" && kv["side"] != "sses" {
 		return nil, false
 	}
-	c := &khCase{side: kv["side"], pv: kv["pv"]}
+	c := &khCase{side: kv["side"], pv: kv["pv"], mode: kv["mode"]}
+	if c.mode != "" && c.mode != "store" && c.mode != "stateless" {
+		return nil, false
+	}
+	if r := kv["race"]; r != "" {
+		v, err := strconv.ParseInt(r, 10, 64)
+		if err != nil || v <= 0 {
+			return nil, false
+		}
+		c.race = v
+	}
 	var e1, e2, e3 error
 	c.I, e1 = strconv.ParseInt(kv["I"], 10, 64)
 	c.T, e2 = strconv.Atoi(kv["T"])
@@ -153,7 +180,7 @@ func khParse(op string) (*khCase, bool) {
 				c.wire = append(c.wire, khStep{kind: el[0]})
 				continue
 			}
-			if len(el) < 2 || !(strings.ContainsRune(khKinds, rune(el[0])) || el[0] == 'R') {
+			if len(el) < 2 || !(strings.ContainsRune(khKinds, rune(el[0])) || el[0] == 'R' || el[0] == 'G') {
 				return nil, false
 			}
 			ds, ct := el[1:], 0
@@ -354,6 +381,12 @@ func khTags(c *khCase, obs string) []string {
 		return []string{"len=0"}
 	}
 	tags := []string{fmt.Sprintf("T=%d", c.T), fmt.Sprintf("len=%d", len(c.wire)), "real-" + c.side, "pv:" + c.pv}
+	if c.mode != "" {
+		tags = append(tags, "mode:"+c.mode)
+	}
+	if c.race > 0 {
+		tags = append(tags, "delete-during-ping")
+	}
 	f := strings.Fields(obs)
 	if len(f) > 2 && f[2] != "close=-" {
 		tags = append(tags, "closed")
@@ -651,7 +684,15 @@ func TestVerifKeepAliveHTTP(t *testing.T) {
 	emit := func(prefix string, c *khCase) {
 		id := fmt.Sprintf("%s%d", prefix, n)
 		var obs string
-		if c.side == "ssec" || c.side == "sses" {
+		if c.side == "shttp" && c.race > 0 {
+			op, o := khRunDelete(t, c)
+			out.line(id, op, o, append(khTags(c, o), "http-delete")...)
+			n++
+			return
+		}
+		if c.side == "shttp" && c.mode == "stateless" {
+			obs = khRunStateless(t, c)
+		} else if c.side == "ssec" || c.side == "sses" {
 			obs = khRunSSE(t, c)
 		} else if c.side == "shttp" {
 			obs = khRunSrvHTTP(t, c)
@@ -670,6 +711,11 @@ func TestVerifKeepAliveHTTP(t *testing.T) {
 		}
 		for _, ln := range strings.Split(string(b), "\n") {
 			ln = strings.TrimSpace(ln)
+			if strings.HasPrefix(ln, "kss ") {
+				if i := strings.Index(ln, " scn=shttp|"); i >= 0 {
+					ln = "kas " + strings.ReplaceAll(strings.Fields(ln[i+len(" scn=shttp|"):])[0], "|", " ")
+				}
+			}
 			if !strings.HasPrefix(ln, "kas ") || !(strings.Contains(ln, " side=http ") || strings.Contains(ln, " side=ctxw ") || strings.Contains(ln, " side=srvw ") || strings.Contains(ln, " side=shttp ") || strings.Contains(ln, " side=ssec ") || strings.Contains(ln, " side=sses ")) {
 				continue // the other lines belong to the streams `loop` and `sessions`
 			}
@@ -802,6 +848,58 @@ func TestVerifKeepAliveHTTP(t *testing.T) {
 				}
 			}
 		}
+		// the same transport with an EventStore (a ping without a standalone stream is appended to the store and times
+		// out) and in stateless mode (a temporary session per POST, whose tool handler runs for 0.6 .. 4.6 intervals:
+		// every ping of that session is refused): patterns over {answered, no stream, silent} resp. every duration x thresholds
+		for l := 1; l <= 3; l++ {
+			for code, total := 0, pow3(l); code < total; code++ {
+				for T := 0; T <= 3; T++ {
+					var w []khStep
+					for i, cd := 0, code; i < l; i, cd = i+1, cd/3 {
+						w = append(w, []khStep{{'j', int64(3 + 4*i), 0}, {'G', 0, 0}, {kind: 'n'}}[cd%3])
+					}
+					w = append(w, khStep{'j', 11, 0}, khStep{'G', 0, 0}, khStep{'j', 5, 0})
+					for _, mode := range []string{"", "store"} {
+						c := &khCase{side: "shttp", mode: mode, I: I, T: T, wire: w, pv: []string{protocolVersion20251125, protocolVersion20250618}[(T+l)%2]}
+						c.derive()
+						c.tc = kaAfter(I, c.script)
+						emit("g", c)
+					}
+				}
+			}
+		}
+		// DELETE versus keep-alive: the client's DELETE arrives r after tick k, whose ping is unanswered / answered
+		// late / stored (no standalone stream, EventStore) / refused — or was answered at once (between two ticks) —
+		// after 0..1 answered pings, x thresholds 1..3
+		for _, mode := range []string{"", "store"} {
+			for pre := 0; pre <= 1; pre++ {
+				for _, k := range []khStep{{kind: 'n'}, {'j', I/2 + 211, 0}, {'G', 0, 0}, {'j', 3, 0}, {'x', 9, 0}} {
+					for _, r := range []int64{1, 137, I/2 - 3, I/2 + 53} {
+						for T := 1; T <= 3; T++ {
+							var w []khStep
+							for i := 0; i < pre; i++ {
+								w = append(w, khStep{'j', 7, 0})
+							}
+							w = append(w, k, khStep{'j', 5, 0})
+							c := &khCase{side: "shttp", mode: mode, I: I, T: T, wire: w, pv: protocolVersion20251125, race: r}
+							c.derive()
+							c.tc = int64(pre+1)*I + r
+							emit("d", c)
+						}
+					}
+				}
+			}
+		}
+		for _, D := range []int64{607, 1311, 2503, 3709, 4603} {
+			for T := 0; T <= 4; T++ {
+				c := &khCase{side: "shttp", mode: "stateless", I: I, T: T, pv: protocolVersion20251125, tc: D}
+				for i := int64(0); i <= D/I; i++ {
+					c.wire = append(c.wire, khStep{'G', 0, 0})
+				}
+				c.derive()
+				emit("g", c)
+			}
+		}
 		for _, k := range []byte("Jx") {
 			for _, d := range []int64{3, I/2 + 101} {
 				for T := 0; T <= 2; T++ {
@@ -851,7 +949,7 @@ func TestVerifKeepAliveHTTP(t *testing.T) {
 		}
 	}
 	rng := verifRng(1313)
-	nr := verifN(600, 8000)
+	nr := verifN(600, 5000)
 	for i := 0; i < nr; i++ {
 		if verifThorough() {
 			emit("h", khRandom(rng, 14, 6))
@@ -888,13 +986,17 @@ func pow3(n int) int {
 
 func khRandomSrvHTTP(rng *rand.Rand, maxLen, maxT int) *khCase {
 	I := []int64{1000, 5000, 30_000_000_000}[rng.Intn(3)]
-	c := &khCase{side: "shttp", I: I, T: rng.Intn(maxT+2) - 1, pv: []string{protocolVersion20251125, protocolVersion20250618}[rng.Intn(2)]}
+	c := &khCase{side: "shttp", mode: []string{"", "", "store"}[rng.Intn(3)], I: I, T: rng.Intn(maxT+2) - 1, pv: []string{protocolVersion20251125, protocolVersion20250618}[rng.Intn(2)]}
 	n := rng.Intn(maxLen + 1)
 	pr := []int{15, 40, 70}[rng.Intn(3)]
 	for i := 0; i < n; i++ {
 		switch r := rng.Intn(100); {
 		case r < pr:
-			c.wire = append(c.wire, khStep{'R', 0, 0})
+			k := byte('G') // `R` claims that the transport refused the ping, which a server with an EventStore does not do
+			if c.mode == "" && rng.Intn(2) == 0 {
+				k = 'R'
+			}
+			c.wire = append(c.wire, khStep{k, 0, 0})
 		case r < pr+(100-pr)*6/10:
 			c.wire = append(c.wire, khStep{'j', khDelay(rng, I), 0})
 		default:
